@@ -39,17 +39,33 @@ Theorem C04_unsigned_absent :
 Proof. exact unsigned_absent. Qed.
 Print Assumptions C04_unsigned_absent.
 
-(* ... and the attestations are exactly one per remaining account, in the order of the accounts. *)
+(* ... and the attestations are exactly one per remaining account, in the order of the accounts.
+   "Remaining" also excludes an account whose committee, by the duty, has more members than
+   MAX_VALIDATORS_PER_COMMITTEE (2048): createAttestations allocates no aggregation bits for such a
+   duty.  For a duty within that bound (every beacon node answer) the second condition is void:
+   [C04_one_per_signed_account_bounded]. *)
 Theorem C04_one_per_signed_account :
   forall (d : duty) (claimed avail : list vidx) (a : adata) (unsigned : list vidx),
     map (fun x => fst (at_sig x)) (attestations d a (sign_args d claimed avail) unsigned) =
-    filter (fun v => negb (memb N.eqb v unsigned)) (accounts_for avail claimed).
-Proof. intros. rewrite attestations_signers, sign_args_v. reflexivity. Qed.
+    filter (fun v => negb (memb N.eqb v unsigned) && (sa_size (arg_of d v) <=? max_committee))
+           (accounts_for avail claimed).
+Proof. exact sign_args_signers. Qed.
 Print Assumptions C04_one_per_signed_account.
+
+Theorem C04_one_per_signed_account_bounded :
+  forall (d : duty) (claimed avail : list vidx) (a : adata) (unsigned : list vidx),
+    (forall c, size_of d c <= max_committee) ->
+    map (fun x => fst (at_sig x)) (attestations d a (sign_args d claimed avail) unsigned) =
+    filter (fun v => negb (memb N.eqb v unsigned)) (accounts_for avail claimed).
+Proof.
+  intros d claimed avail a unsigned Hb. rewrite sign_args_signers. apply filter_ext.
+  intro v. cbn [arg_of sa_size snd]. rewrite (proj2 (N.leb_le _ _) (Hb _)). apply andb_true_r.
+Qed.
+Print Assumptions C04_one_per_signed_account_bounded.
 
 (* The signing request pairs every account with the committee index of that validator's own row,
    and the k-th attestation is built from the k-th (account, committee index) pair that got a
-   signature. *)
+   signature (and whose committee is not larger than the maximum committee size). *)
 Theorem C04_sign_args_aligned :
   forall (i : nat) (d : duty) (claimed avail : list vidx) (a : adata) (unsigned : list vidx),
     wf_duty d -> incl claimed (d_vals d) ->
@@ -57,7 +73,8 @@ Theorem C04_sign_args_aligned :
        In v claimed /\ In v avail /\
        exists j, nth_error (d_vals d) j = Some v /\ nth_error (d_comms d) j = Some c) /\
     map (fun x => (fst (at_sig x), vt_comm (at_vote x))) (attestations d a (sign_args d claimed avail) unsigned) =
-    filter (fun p => negb (memb N.eqb (fst p) unsigned)) (sr_pairs (mk_signreq i d a (sign_args d claimed avail))).
+    filter (fun p => negb (memb N.eqb (fst p) unsigned) && (size_of d (snd p) <=? max_committee))
+           (sr_pairs (mk_signreq i d a (sign_args d claimed avail))).
 Proof.
   intros i d claimed avail a unsigned Hwf Hincl. split.
   - intros v c. exact (sign_args_aligned i d claimed avail a v c Hwf Hincl).
